@@ -947,6 +947,8 @@ pub fn gen_c20(rng: &mut Rng) -> Value {
             8 => json!({"k":"api","op":"reader","key":ki,"bufs":[0, if vals.iter().any(|v| v["len"].as_u64().unwrap_or(0) > 4096) { 4096 } else { *rng.pick(&[1u64, 0, 4096]) }],"eof_reads":rng.below(4)}),
             9 => json!({"k":"api","op":*rng.pick(&["metadata","find"]),"key":ki}),
             10 => json!({"k":"api","op":*rng.pick(&["list","ls"])}),
+            // destinations that are no file names: empty, the root, a directory, a path through a missing directory
+            11 if rng.chance(1, 4) => json!({"k":"api","op":*rng.pick(&["copy","copy_unchecked","hard_link","reflink","hard_link_unchecked","reflink_unchecked"]),"key":ki,"to":*rng.pick(&["", "/", ".", "..", "$O/", "$O", "$C", "$O/nodir/deeper/x", "$O/h0/x"]),"hostile":true}),
             11 => json!({"k":"api","op":*rng.pick(&["copy","copy_unchecked","hard_link","reflink","hard_link_unchecked","reflink_unchecked"]),"key":ki,"to":format!("$O/h{}", rng.below(3))}),
             12 => json!({"k":"api","op":*rng.pick(&["remove","remove_opts"]),"key":ki,"fully":rng.chance(1,2)}),
             13 => json!({"k":"api","op":*rng.pick(&["remove_hash","exists","read"]),"addr":{"val":vi,"algo":*rng.pick(&ALGOS)}}),
